@@ -186,7 +186,7 @@ def kind_of(d):
 
 
 def scenario_kinds(rng, n):
-    return [rng.choice([None, None, None, 'passout', 'short']) for _ in range(n)]
+    return [rng.choice([None, None, None, 'passout', 'short', 'zero', 'all13']) for _ in range(n)]
 
 
 def campaign(ctx, want, n_sessions, boards_choices=(1, 1, 2, 2, 3), policies_per_scenario=2, fixed_first=True,
@@ -202,6 +202,9 @@ def campaign(ctx, want, n_sessions, boards_choices=(1, 1, 2, 2, 3), policies_per
         sc = session.gen_scenario(rng, nb, fancy=True, kinds=scenario_kinds(rng, nb))
         if fixed_first and idx == 0 and ctx.shard == 0:
             sc = session.gen_scenario(random.Random(12345), 2, fancy=True, kinds=['passout', None])
+        if fixed_first and idx == 0 and ctx.shard == 1 % max(1, ctx.nshards):
+            # a played board on which declarer's side wins NO trick, then a passed-out one, then all thirteen tricks
+            sc = session.gen_scenario(random.Random(f'extremes/{ctx.seed}'), 3, fancy=True, kinds=['zero', 'passout', 'all13'])
         idx += 1
         model = None
         logs = []
@@ -221,6 +224,7 @@ def campaign(ctx, want, n_sessions, boards_choices=(1, 1, 2, 2, 3), policies_per
             for b in sc['boards']:
                 if not b['plays']:
                     ctx.count('passed_out_boards')
+                ctx.count('boards_kind_' + str(b.get('kind')))
                 if any('lert' in t.lower() for _, t in b['calls']):
                     ctx.count('boards_with_alert')
             ctx.distinct.add(hash((json.dumps(sc, sort_keys=True), json.dumps(pdesc, sort_keys=True))))
